@@ -336,3 +336,141 @@ pub fn skeletons(out: &mut String) {
     writeln!(out, "def skNamed : List (String × Fn) := [{}]\n", names.iter().map(|n| format!("({}, {})", lean_str(n), n)).collect::<Vec<_>>().join(", ")).unwrap();
     writeln!(out, "/-- functions whose template could not be validated on every shape -/\ndef skOpaqueCount : Nat := {}\n\nend Soa.Extracted", n_opaque).unwrap();
 }
+
+// ---------------------------------------------------------------------------------------------------------------
+// Bodies without per-field content (loops, delegations): a structural translation of the syn AST into the small
+// statement language of `Soa/Model/Loop.lean`.  Anything outside the subset becomes `.other "<tokens>"`.
+
+fn path_str(p: &syn::Path) -> String { p.to_token_stream().to_string().replace(' ', "") }
+
+fn lex(e: &syn::Expr, params: &[String]) -> String {
+    use syn::Expr;
+    let list = |v: Vec<String>| format!("[{}]", v.join(", "));
+    match e {
+        Expr::Paren(p) => lex(&p.expr, params),
+        Expr::Group(g) => lex(&g.expr, params),
+        Expr::Reference(r) => lex(&r.expr, params),      // `&e` / `&mut e`: borrowing is not modelled
+        Expr::Path(p) if p.qself.is_none() && p.path.segments.len() == 1 && p.path.leading_colon.is_none() => {
+            let id = p.path.segments[0].ident.to_string();
+            if id == "self" { ".self_".into() }
+            else if let Some(k) = params.iter().position(|x| *x == id) { format!("(.param {})", k) }
+            else { format!("(.var {})", lean_str(&id)) }
+        }
+        Expr::Lit(l) => match &l.lit { syn::Lit::Int(i) => format!("(.num {})", i.base10_digits()), _ => format!("(.other {})", lean_str(&crate::ts(e))) },
+        Expr::MethodCall(m) if m.turbofish.is_none() =>
+            format!("(.mcall {} {} {})", lex(&m.receiver, params), lean_str(&m.method.to_string()), list(m.args.iter().map(|a| lex(a, params)).collect())),
+        Expr::Call(c) => {
+            let args = list(c.args.iter().map(|a| lex(a, params)).collect());
+            match &*c.func {
+                Expr::Path(p) if p.qself.is_none() && p.path.segments.len() == 1 && p.path.leading_colon.is_none() => {
+                    let id = p.path.segments[0].ident.to_string();
+                    if let Some(k) = params.iter().position(|x| *x == id) { format!("(.app {} {})", k, args) }
+                    else { format!("(.fcall {} {})", lean_str(&id), args) }
+                }
+                Expr::Path(p) => format!("(.fcall {} {})", lean_str(&crate::ts(p)), args),
+                _ => format!("(.other {})", lean_str(&crate::ts(e))),
+            }
+        }
+        Expr::Binary(b) => format!("(.bin {} {} {})", lean_str(&b.op.to_token_stream().to_string()), lex(&b.left, params), lex(&b.right, params)),
+        Expr::Unary(u) => match u.op { syn::UnOp::Not(_) => format!("(.not {})", lex(&u.expr, params)), syn::UnOp::Deref(_) => lex(&u.expr, params), _ => format!("(.other {})", lean_str(&crate::ts(e))) },
+        Expr::Range(r) if matches!(r.limits, syn::RangeLimits::HalfOpen(_)) && r.start.is_some() && r.end.is_some() =>
+            format!("(.range {} {})", lex(r.start.as_ref().unwrap(), params), lex(r.end.as_ref().unwrap(), params)),
+        Expr::Field(f) => match &f.member { syn::Member::Unnamed(i) => format!("(.proj {} {})", lex(&f.base, params), i.index), syn::Member::Named(n) => format!("(.fld {} {})", lex(&f.base, params), lean_str(&n.to_string())) },
+        Expr::Closure(c) => {
+            let ps: Vec<String> = c.inputs.iter().map(|p| match p { syn::Pat::Ident(pi) => lean_str(&pi.ident.to_string()), _ => lean_str("_") }).collect();
+            format!("(.lam {} {})", list(ps), lex(&c.body, params))
+        }
+        _ => format!("(.other {})", lean_str(&crate::ts(e))),
+    }
+}
+
+fn lblock(b: &syn::Block, params: &[String]) -> (Vec<String>, Option<String>) {
+    let mut out = vec![]; let mut tail = None;
+    let n = b.stmts.len();
+    for (i, s) in b.stmts.iter().enumerate() {
+        match s {
+            syn::Stmt::Item(_) => {}                      // `use soa_derive::Permutation;`
+            syn::Stmt::Local(l) => {
+                let name = match &l.pat { syn::Pat::Ident(pi) => Some(pi.ident.to_string()), syn::Pat::Type(pt) => match &*pt.pat { syn::Pat::Ident(pi) => Some(pi.ident.to_string()), _ => None }, syn::Pat::Wild(_) => Some("_".into()), _ => None };
+                match (name, &l.init) {
+                    (Some(x), Some(init)) if init.diverge.is_none() => out.push(format!("(.let_ {} {})", lean_str(&x), lex(&init.expr, params))),
+                    _ => out.push(format!("(.other {})", lean_str(&crate::ts(s)))),
+                }
+            }
+            syn::Stmt::Expr(e, semi) => {
+                if i + 1 == n && semi.is_none() && !is_stmt_like(e) { tail = Some(lex(e, params)); } else { out.push(lstmt(e, params)); }
+            }
+            syn::Stmt::Macro(m) => out.push(format!("(.other {})", lean_str(&crate::ts(m)))),
+        }
+    }
+    (out, tail)
+}
+fn is_stmt_like(e: &syn::Expr) -> bool { matches!(e, syn::Expr::If(_) | syn::Expr::While(_) | syn::Expr::ForLoop(_) | syn::Expr::Block(_)) }
+fn lstmts(b: &syn::Block, params: &[String]) -> String {
+    let (mut ss, tail) = lblock(b, params);
+    if let Some(t) = tail { ss.push(format!("(.expr {})", t)); }
+    format!("[{}]", ss.join(", "))
+}
+fn lstmt(e: &syn::Expr, params: &[String]) -> String {
+    use syn::Expr;
+    match e {
+        Expr::If(i) => {
+            let els = match &i.else_branch { None => "[]".to_string(), Some((_, eb)) => match &**eb { Expr::Block(b) => lstmts(&b.block, params), other => format!("[{}]", lstmt(other, params)) } };
+            format!("(.ite {} {} {})", lex(&i.cond, params), lstmts(&i.then_branch, params), els)
+        }
+        Expr::While(w) => match &*w.cond {
+            Expr::Let(l) => {
+                // `while let Some(x) = e`
+                if let syn::Pat::TupleStruct(ts_) = &*l.pat { if path_str(&ts_.path) == "Some" && ts_.elems.len() == 1 { if let syn::Pat::Ident(pi) = &ts_.elems[0] {
+                    return format!("(.whileLetSome {} {} {})", lean_str(&pi.ident.to_string()), lex(&l.expr, params), lstmts(&w.body, params)); } } }
+                format!("(.other {})", lean_str(&crate::ts(e)))
+            }
+            c => format!("(.while_ {} {})", lex(c, params), lstmts(&w.body, params)),
+        },
+        Expr::ForLoop(f) => {
+            let x = match &*f.pat { syn::Pat::Ident(pi) => pi.ident.to_string(), syn::Pat::Wild(_) => "_".into(), _ => return format!("(.other {})", lean_str(&crate::ts(e))) };
+            format!("(.forIn {} {} {})", lean_str(&x), lex(&f.expr, params), lstmts(&f.body, params))
+        }
+        Expr::Block(b) if b.label.is_none() => format!("(.block {})", lstmts(&b.block, params)),
+        Expr::Binary(b) if matches!(b.op, syn::BinOp::AddAssign(_) | syn::BinOp::SubAssign(_)) => {
+            if let Expr::Path(p) = &*b.left { if p.path.segments.len() == 1 { return format!("(.opAssign {} {} {})", lean_str(&b.op.to_token_stream().to_string()), lean_str(&p.path.segments[0].ident.to_string()), lex(&b.right, params)); } }
+            format!("(.other {})", lean_str(&crate::ts(e)))
+        }
+        other => format!("(.expr {})", lex(other, params)),
+    }
+}
+
+pub fn loops(out: &mut String) {
+    let schematic = Shape { nested: vec![false, true, false] };
+    let ast: syn::DeriveInput = syn::parse_str(&schematic.decl()).expect("schematic declaration parses");
+    let input = crate::input::Input::new(ast);
+    writeln!(out, "import Soa.Model.LoopSyntax\n-- generated by /verif/extract (skel.rs) from the generator sources in /repo/soa-derive-internal/src; do not edit").unwrap();
+    writeln!(out, "/-! the generated functions without per-field content (loops over other generated methods, delegations), as\n    statement trees; the same for every struct shape (their templates in `Skel.lean` contain no repetition) -/").unwrap();
+    writeln!(out, "namespace Soa.Extracted\nopen Soa.Lp\n").unwrap();
+    let mut names = vec![];
+    let mut seen: std::collections::HashMap<String, usize> = Default::default();
+    for (file, tstream) in [("vec", crate::vec::derive(&input)), ("refs", crate::refs::derive(&input)), ("slice", crate::slice::derive(&input)),
+                            ("slice_mut", crate::slice::derive_mut(&input)), ("iter", crate::iter::derive(&input))] {
+        let f: syn::File = syn::parse2(tstream).expect("generated code parses");
+        for item in &f.items { if let syn::Item::Impl(im) = item {
+            let owner = crate::ts(&im.self_ty);
+            let tr = im.trait_.as_ref().map(|(_, p, _)| format!("<{}>", crate::ts(p))).unwrap_or_default();
+            for ii in &im.items { if let syn::ImplItem::Fn(fun) = ii {
+                let mut key = format!("{}{}::{}", owner, tr, fun.sig.ident);
+                let c = seen.entry(key.clone()).or_insert(0); *c += 1;
+                if *c > 1 { key = format!("{}#{}", key, c); }
+                // only bodies without per-field content
+                let mut tm = vec![]; templ(&tree(fun.block.to_token_stream()), &mut tm);
+                if tm.len() != 1 || !matches!(tm[0], Tm::T(_)) { continue; }
+                let params: Vec<String> = fun.sig.inputs.iter().filter_map(|a| match a { syn::FnArg::Typed(pt) => match &*pt.pat { syn::Pat::Ident(pi) => Some(pi.ident.to_string()), _ => Some("_".into()) }, _ => None }).collect();
+                let (ss, tail) = lblock(&fun.block, &params);
+                let name = format!("lp_{}", lean_name(&key));
+                writeln!(out, "def {} : Body where\n  key := {}\n  scope := {}\n  name := {}\n  stmts := [\n    {}]\n  tail := {}\n", name, lean_str(&key),
+                    lean_str(crate::scope_of(file, &key, &fun.sig.ident.to_string())), lean_str(&fun.sig.ident.to_string()), ss.join(",\n    "),
+                    match tail { Some(t) => format!("some {}", t), None => "none".into() }).unwrap();
+                names.push(name);
+            } }
+        } }
+    }
+    writeln!(out, "def lpAll : List Body := [{}]\n\nend Soa.Extracted", names.join(", ")).unwrap();
+}
